@@ -28,11 +28,14 @@ class SubstitutedPosition:
 
 def weight_vector(rng, kind=None):
     """-> list of weight literal texts as the DSL would spell them"""
-    kind = kind or rng.choice(["int", "int-small", "decimal", "mixed", "tiny", "huge", "zeros", "equal", "two"])
+    kind = kind or rng.choice(["int", "int-small", "decimal", "mixed", "tiny", "huge", "zeros", "equal", "two", "subpico", "googol"])
     n = rng.choice([1, 2, 2, 3, 4, 5, 8, 16, 33, 64])
     if kind == "two":
         n = 2
     ws = []
+    # (one scale for the whole vector: the property is about ratios of comparable weights; magnitudes more than 2^53 apart absorb each other in binary64)
+    sub_zeros = rng.choice([12, 13, 20, 60, 150, 300])
+    goo_zeros = rng.choice([20, 100, 200, 298, 300]) if n <= 5 else rng.choice([20, 100, 200])
     for i in range(n):
         if kind == "int":
             w = str(rng.choice([0, 1, 2, 3, 5, 10, 50, 100, 1000, rng.randint(0, 10 ** 6)]))
@@ -44,6 +47,11 @@ def weight_vector(rng, kind=None):
             w = str(rng.randint(0, 100)) if rng.random() < 0.5 else gen.rand_float_text(rng, nonneg=True)
         elif kind == "tiny":
             w = rng.choice(["0.000000001", "0.000000002", "0.0000000015", "0.00000001", "0.0"])
+        elif kind == "subpico":
+            # a whole vector written on a scale far below 1 (the split is about ratios, not magnitudes)
+            w = "0." + "0" * sub_zeros + str(rng.choice([2, 6, 8, 1, 25, 14, 26])) if rng.random() < 0.9 else "0.0"
+        elif kind == "googol":
+            w = str(rng.randint(1, 9)) + "0" * goo_zeros
         elif kind == "huge":
             w = rng.choice(["1000000000.0", "999999999.999", "1000000000", "123456789.123456789", "0.5"])
         elif kind == "zeros":
